@@ -15,7 +15,7 @@ RULE = ('case = (tree incl. mixed-case names, list of 1-4 path patterns (overlap
         'individual results intersect; evaluations = list calls compared')
 ASSUMPTIONS = ['single-pattern glob() results are the building blocks (judged by C05)', 'the file system is case-sensitive: Abc and abc are different paths']
 
-CFG_KEYS = ['nounique', 'icase', 'case', 'nodir', 'scandotdir', 'globstar', 'dot', 'mark']
+CFG_KEYS = ['nounique', 'icase', 'case', 'nodir', 'scandotdir', 'globstar', 'dot', 'mark', 'negateall']
 
 
 def shards(tier, seed, scale=1.0):
